@@ -775,9 +775,11 @@ func (b *Builder) Finish() error {
 		}
 	}
 
+	renameFailed := false
 	for tmp, final := range artifactPaths {
 		if err := os.Rename(tmp, final); err != nil {
 			b.buildError = err
+			renameFailed = true
 			continue
 		}
 
@@ -785,6 +787,13 @@ func (b *Builder) Finish() error {
 	}
 
 	b.finishedShards = map[string]string{}
+
+	if renameFailed {
+		// The new index is incomplete. Keep the old shards: removing them (which
+		// includes the shard a failed rename should have replaced) would leave the
+		// repository with neither the old nor the new index.
+		return b.buildError
+	}
 
 	for p := range toDelete {
 		// Don't delete compound shards, set tombstones instead.
